@@ -10,7 +10,7 @@ shutil.copy(src+'/patch.diff',dst+'/patch.diff'); shutil.copy(src+'/demo.rs',dst
 am=json.load(open(src+'/meta.json'))
 v=json.loads(vj)
 meta={'property':prop,'summary':am.get('summary'),'needs_to_manifest':am.get('needs_to_manifest'),'files_changed':am.get('files_changed'),
-      'demo_placement':am.get('demo_placement','tests/seed_demo.rs'),'origin':'independent sub-agent given only the property text and a scratch worktree',
+      'demo_placement':am.get('demo_placement') or 'tests/seed_demo.rs','demo_rustflags':am.get('demo_rustflags') or '','origin':'independent sub-agent given only the property text and a scratch worktree',
       'confirmed_by_me':{'how':'tools/verify_seed.sh in a scratch worktree of /repo HEAD (removed afterwards)','result':v},
       'checks_run':['tools/try_seed.sh seeded/%s/patch.diff %s'%(name,' '.join(c.split(':')[0] for c in caught.split(',') if c))],
       'caught_by':[c for c in caught.split(',') if c],'note':note}
